@@ -6,3 +6,576 @@ Local Open Scope Z_scope.
 
 Definition params_ok (p : Z) : Prop := 24 <= p /\ p mod 8 = 0.
 Definition all_pages (s : sbuf) : list page := map Z.of_nat (seq 0 (Z.to_nat (nextp s))).
+
+From Coq Require Import FinFun ZifyBool.
+
+(* ------------------------------------------------------------------ *)
+(* The only fact used about the generated constants.                   *)
+Lemma ipc_pos : 1 <= INLINE_PAGE_CAPACITY.
+Proof. vm_compute. discriminate. Qed.
+Local Opaque INLINE_PAGE_CAPACITY.
+
+Lemma K_Z : Z.of_nat K = INLINE_PAGE_CAPACITY.
+Proof. unfold K, Kz. pose proof ipc_pos. lia. Qed.
+Lemma K_pos : (1 <= K)%nat.
+Proof. pose proof K_Z. pose proof ipc_pos. lia. Qed.
+Local Opaque K.
+
+(* ------------------------------------------------------------------ *)
+(* Generic list lemmas                                                 *)
+Lemma snoc_case {A} (l : list A) (x : A) : exists y r, l ++ [x] = y :: r.
+Proof. destruct l; cbn; eauto. Qed.
+
+Lemma last_len_snoc ts0 t es : last_len (ts0 ++ [(t, es)]) = length es.
+Proof. unfold last_len. rewrite rev_app_distr. reflexivity. Qed.
+
+Lemma app_last_cons2 x y r a : app_last (x :: y :: r) a = x :: app_last (y :: r) a.
+Proof. destruct x. reflexivity. Qed.
+
+Lemma app_last_snoc ts0 t es a : app_last (ts0 ++ [(t, es)]) a = ts0 ++ [(t, es ++ [a])].
+Proof.
+  induction ts0 as [|x ts0 IH]; [reflexivity|].
+  cbn [app]. destruct (snoc_case ts0 (t, es)) as (y & r & E).
+  rewrite E, app_last_cons2, <- E, IH. reflexivity.
+Qed.
+
+Lemma put_last_cons2 x y r b : put_last (x :: y :: r) b = x :: put_last (y :: r) b.
+Proof. destruct x. reflexivity. Qed.
+
+Lemma put_last_snoc d0 a lb b : put_last (d0 ++ [(a, lb)]) b = d0 ++ [(a, lb ++ [b])].
+Proof.
+  induction d0 as [|x d0 IH]; [reflexivity|].
+  cbn [app]. destruct (snoc_case d0 (a, lb)) as (y & r & E).
+  rewrite E, put_last_cons2, <- E, IH. reflexivity.
+Qed.
+
+Lemma take_exact_app L R : take_exact (length L) (L ++ R) = Some L.
+Proof. induction L as [|x L IH]; cbn [length app take_exact]; [reflexivity|]. rewrite IH. reflexivity. Qed.
+
+Lemma nth_error_mid {A} (L : list A) x R : nth_error (L ++ x :: R) (length L) = Some x.
+Proof. rewrite nth_error_app2 by lia. rewrite Nat.sub_diag. reflexivity. Qed.
+
+Definition ap (n : Z) : list page := map Z.of_nat (seq 0 (Z.to_nat n)).
+
+Lemma ap_succ n : 0 <= n -> ap (n + 1) = ap n ++ [n].
+Proof.
+  intros Hn. unfold ap. rewrite Z2Nat.inj_add by lia.
+  change (Z.to_nat 1) with 1%nat. rewrite Nat.add_1_r, seq_S, map_app.
+  cbn [map Nat.add]. rewrite Z2Nat.id by lia. reflexivity.
+Qed.
+
+Lemma ap_nodup n : NoDup (ap n).
+Proof. unfold ap. apply Injective_map_NoDup; [exact Nat2Z.inj | apply seq_NoDup]. Qed.
+
+Lemma nodup_app_r {A} (l1 l2 : list A) : NoDup (l1 ++ l2) -> NoDup l2.
+Proof. induction l1 as [|a l1 IH]; cbn [app]; intros H; [exact H|]. inversion H; subst. auto. Qed.
+
+Lemma lookup_in d : NoDup (map fst d) -> forall a b, In (a, b) d -> lookup d a = b.
+Proof.
+  induction d as [|[x xb] d IH]; intros Hnd a b Hin; [destruct Hin|].
+  cbn [map fst] in Hnd. inversion Hnd as [|? ? Hni Hnd']; subst.
+  cbn [lookup]. destruct Hin as [E|Hin].
+  - inversion E; subst. rewrite Z.eqb_refl. reflexivity.
+  - destruct (Z.eqb x a) eqn:Exa.
+    + apply Z.eqb_eq in Exa. subst x. exfalso. apply Hni.
+      change a with (fst (a, b)). apply in_map. exact Hin.
+    + apply IH; assumption.
+Qed.
+
+Lemma lookup_all d : NoDup (map fst d) -> flat_map (lookup d) (map fst d) = concat (map snd d).
+Proof.
+  intros Hnd. rewrite flat_map_concat_map, map_map. f_equal.
+  apply map_ext_in. intros [a b] Hin. cbn [fst snd]. apply lookup_in; assumption.
+Qed.
+
+(* ------------------------------------------------------------------ *)
+Section WithP.
+Variable p : Z.
+Hypothesis Hp : params_ok p.
+
+Local Notation pp := (fun a : page => (a, p)).
+
+Lemma p_pos : 24 <= p.
+Proof. destruct Hp. assumption. Qed.
+
+Lemma tz_ge2 : 2 <= (p - 8) / 8.
+Proof. pose proof p_pos. apply Z.div_le_lower_bound; lia. Qed.
+
+Lemma T_Z : Z.of_nat (T p) = (p - 8) / 8.
+Proof. unfold T, Tz. pose proof tz_ge2. lia. Qed.
+
+Lemma T_ge2 : (2 <= T p)%nat.
+Proof. pose proof T_Z. pose proof tz_ge2. lia. Qed.
+
+(* ---- LogEntry::pages_append_to_iovec ---- *)
+Lemma pages_iov_full L R :
+  pages_iov p (L ++ R) (Z.of_nat (length L) * p) = Some (map pp L).
+Proof.
+  pose proof p_pos as Hp0.
+  unfold pages_iov, full_page_num, pages_tail_cond.
+  rewrite Z.div_mul by lia. rewrite Nat2Z.id, take_exact_app.
+  rewrite Z.sub_diag. cbn. reflexivity.
+Qed.
+
+Lemma pages_iov_tail L x R r : 0 < r <= p ->
+  pages_iov p (L ++ x :: R) (Z.of_nat (length L) * p + r) = Some (map pp L ++ [(x, r)]).
+Proof.
+  intros Hr. pose proof p_pos as Hp0.
+  destruct (Z.eq_dec r p) as [E|NE].
+  - subst r. replace (L ++ x :: R) with ((L ++ [x]) ++ R) by (rewrite <- app_assoc; reflexivity).
+    replace (Z.of_nat (length L) * p + p) with (Z.of_nat (length (L ++ [x])) * p)
+      by (rewrite app_length; cbn [length]; lia).
+    rewrite pages_iov_full, map_app. reflexivity.
+  - unfold pages_iov, full_page_num, pages_tail_cond.
+    rewrite Z.div_add_l by lia. rewrite (Z.div_small r p) by lia.
+    rewrite Z.add_0_r, Nat2Z.id, take_exact_app, nth_error_mid.
+    replace (Z.of_nat (length L) * p + r - Z.of_nat (length L) * p) with r by lia.
+    destruct (r >? 0) eqn:Egt; [reflexivity | lia].
+Qed.
+
+(* ---- LogEntry::page_table_append_to_iovec ---- *)
+Definition mk (ts0 : list (page * list page)) : iovec :=
+  flat_map (fun te => map pp (snd te) ++ [(fst te, 0)]) ts0.
+
+Lemma table_iov_spec ts0 : Forall (fun te => length (snd te) = T p) ts0 ->
+  forall t es0 x r, (length es0 + 1 <= T p)%nat -> 0 < r <= p ->
+  table_iov p (ts0 ++ [(t, es0 ++ [x])])
+    (Z.of_nat (length ts0) * ((p - 8) / 8 * p) + Z.of_nat (length es0) * p + r)
+  = Some (mk ts0 ++ map pp es0 ++ [(x, r); (t, 0)]).
+Proof.
+  pose proof p_pos as Hp0. pose proof tz_ge2 as Htz. pose proof T_Z as HTZ.
+  induction 1 as [|[t' es'] ts0 Hes' Hall IH]; intros t es0 x r Hlen Hr.
+  - cbn [app length table_iov mk flat_map].
+    unfold table_loop_cond, table_tail_cond, full_table_size.
+    set (tz := (p - 8) / 8) in *.
+    assert (Hm : Z.of_nat (length es0) * p <= (tz - 1) * p) by (apply Z.mul_le_mono_nonneg_r; lia).
+    assert (Hm0 : 0 <= Z.of_nat (length es0) * p) by (apply Z.mul_nonneg_nonneg; lia).
+    destruct (_ >? tz * p) eqn:E1; [lia|].
+    destruct (_ >? 0) eqn:E2; [|lia].
+    replace (Z.of_nat 0 * (tz * p) + Z.of_nat (length es0) * p + r)
+      with (Z.of_nat (length es0) * p + r) by lia.
+    rewrite pages_iov_tail by lia. cbn [oapp]. rewrite <- app_assoc. reflexivity.
+  - cbn [app length table_iov mk flat_map fst snd].
+    unfold table_loop_cond, full_table_size.
+    set (tz := (p - 8) / 8) in *. cbn [snd] in Hes'.
+    assert (Hq : 0 < tz * p) by (apply Z.mul_pos_pos; lia).
+    assert (Hm1 : 0 <= Z.of_nat (length ts0) * (tz * p)) by (apply Z.mul_nonneg_nonneg; lia).
+    assert (Hm0 : 0 <= Z.of_nat (length es0) * p) by (apply Z.mul_nonneg_nonneg; lia).
+    destruct (_ >? tz * p) eqn:E1; [|lia].
+    replace (tz * p) with (Z.of_nat (length es') * p) at 1 by (rewrite Hes'; lia).
+    rewrite <- (app_nil_r es') at 1. rewrite pages_iov_full.
+    replace (Z.of_nat (S (length ts0)) * (tz * p) + Z.of_nat (length es0) * p + r - tz * p)
+      with (Z.of_nat (length ts0) * (tz * p) + Z.of_nat (length es0) * p + r) by lia.
+    fold tz in IH. rewrite IH by assumption. cbn [oapp].
+    fold (mk ts0). rewrite <- !app_assoc. reflexivity.
+Qed.
+
+
+(* ---- structure of the slot arrays after the data pages D were pushed ---- *)
+Definition Struct (il : list page) (ts : list (page * list page)) (D : list page) : Prop :=
+  (ts = [] /\ il = D /\ (length D <= K)%nat) \/
+  (exists ts0 t es, ts = ts0 ++ [(t, es)] /\ Forall (fun te => length (snd te) = T p) ts0 /\
+     (1 <= length es <= T p)%nat /\ length il = (K - 1)%nat /\
+     il ++ concat (map snd ts0) ++ es = D /\ (K < length D)%nat).
+
+Ltac fields := cbn [size room inl tabs nextp data err].
+
+Lemma struct_step s D : Struct (inl s) (tabs s) D ->
+  exists il' ts' k,
+    overflow p s = {| size := size s; room := p; inl := il'; tabs := ts'; nextp := nextp s + 1 + k;
+                      data := data s ++ [(nextp s, [])]; err := err s |} /\
+    Struct il' ts' (D ++ [nextp s]) /\
+    ((k = 0 /\ map fst ts' = map fst (tabs s)) \/
+     (k = 1 /\ map fst ts' = map fst (tabs s) ++ [nextp s + 1])).
+Proof.
+  pose proof K_pos as HK. pose proof T_ge2 as HT.
+  destruct s as [sz rm il ts np d e]. fields.
+  intros [(Hts & Hil & Hlen) | (ts0 & t & es & Hts & Hall & Hes & Hil & HD & HKD)].
+  - subst ts il. destruct (Nat.eq_dec (length D) K) as [EK|NK].
+    + exists (removelast D), [(np + 1, [last D 0; np])], 1.
+      assert (HDl : D = removelast D ++ [last D 0]).
+      { apply app_removelast_last. intros ->. cbn in EK. lia. }
+      pose proof (f_equal (@length _) HDl) as HL. rewrite app_length in HL. cbn [length] in HL.
+      split; [|split].
+      * unfold overflow, cur_full. fields.
+        rewrite (proj2 (Nat.eqb_eq _ _) EK).
+        unfold overflow_page_table. fields.
+        unfold push_page. fields.
+        unfold last_len. cbn [rev app length app_last].
+        rewrite (proj2 (Nat.leb_gt _ _)) by lia. rewrite orb_false_r. reflexivity.
+      * right. exists [], (np + 1), [last D 0; np]. cbn [app map concat length].
+        split; [reflexivity|]. split; [constructor|]. split; [lia|]. split; [lia|]. split.
+        -- change [last D 0; np] with ([last D 0] ++ [np]). rewrite app_assoc, <- HDl. reflexivity.
+        -- rewrite app_length. cbn [length]. lia.
+      * right. split; reflexivity.
+    + exists (D ++ [np]), [], 0. split; [|split].
+      * rewrite Z.add_0_r. unfold overflow, cur_full. fields.
+        rewrite (proj2 (Nat.eqb_neq _ _) NK).
+        unfold push_page. fields.
+        rewrite (proj2 (Nat.leb_gt _ _)) by lia. rewrite orb_false_r. reflexivity.
+      * left. split; [reflexivity|]. split; [reflexivity|]. rewrite app_length. cbn [length]. lia.
+      * left. split; reflexivity.
+  - subst ts. destruct (snoc_case ts0 (t, es)) as (y & r & E).
+    destruct (Nat.eq_dec (length es) (T p)) as [ET|NT].
+    + exists il, ((ts0 ++ [(t, es)]) ++ [(np + 1, [np])]), 1. split; [|split].
+      * unfold overflow, cur_full. fields. rewrite E. cbn iota. rewrite <- E.
+        rewrite last_len_snoc, (proj2 (Nat.eqb_eq _ _) ET).
+        unfold overflow_page_table. fields. rewrite E. cbn iota. rewrite <- E. fields.
+        unfold push_page. fields.
+        set (l' := (ts0 ++ [(t, es)]) ++ _).
+        destruct (snoc_case (ts0 ++ [(t, es)]) (np + 1, [])) as (y' & r' & E').
+        change (l' = y' :: r') in E'.
+        rewrite E'. cbn iota. rewrite <- E'. subst l'. rewrite last_len_snoc, app_last_snoc.
+        cbn [length app]. rewrite (proj2 (Nat.leb_gt _ _)) by lia. rewrite orb_false_r. reflexivity.
+      * right. exists (ts0 ++ [(t, es)]), (np + 1), [np].
+        split; [reflexivity|]. split.
+        { apply Forall_app. split; [assumption|]. constructor; [exact ET | constructor]. }
+        cbn [length]. split; [lia|]. split; [assumption|]. split.
+        -- rewrite map_app, concat_app. cbn [map concat snd]. rewrite app_nil_r.
+           rewrite <- HD. rewrite <- !app_assoc. reflexivity.
+        -- rewrite app_length. cbn [length]. lia.
+      * right. split; [reflexivity|]. rewrite (map_app fst (ts0 ++ [(t, es)])). reflexivity.
+    + exists il, (ts0 ++ [(t, es ++ [np])]), 0. split; [|split].
+      * rewrite Z.add_0_r. unfold overflow, cur_full. fields. rewrite E. cbn iota. rewrite <- E.
+        rewrite last_len_snoc, (proj2 (Nat.eqb_neq _ _) NT).
+        unfold push_page. fields. rewrite E. cbn iota. rewrite <- E.
+        rewrite last_len_snoc, app_last_snoc.
+        rewrite (proj2 (Nat.leb_gt _ _)) by lia. rewrite orb_false_r. reflexivity.
+      * right. exists ts0, t, (es ++ [np]).
+        split; [reflexivity|]. split; [assumption|]. rewrite app_length. cbn [length].
+        split; [lia|]. split; [assumption|]. split.
+        -- rewrite <- HD. rewrite <- !app_assoc. reflexivity.
+        -- rewrite app_length. cbn [length]. lia.
+      * left. split; [reflexivity|]. rewrite !map_app. reflexivity.
+Qed.
+
+(* ---- the ghost data pages: all full except the last, which misses `room` bytes ---- *)
+Definition DataShape (d : list (page * list byte)) (rm sz : Z) : Prop :=
+  (d = [] /\ rm = 0 /\ sz = 0) \/
+  (exists d0 x lb, d = d0 ++ [(x, lb)] /\ Forall (fun e => Z.of_nat (length (snd e)) = p) d0 /\
+     0 <= rm <= p /\ Z.of_nat (length lb) = p - rm /\ sz = (Z.of_nat (length d0) + 1) * p - rm).
+
+Definition Inv0 (bs : list byte) (s : sbuf) : Prop :=
+  err s = false /\ size s = Z.of_nat (length bs) /\ 0 <= nextp s /\
+  Permutation (map fst (tabs s) ++ map fst (data s)) (ap (nextp s)) /\
+  concat (map snd (data s)) = bs /\
+  Struct (inl s) (tabs s) (map fst (data s)) /\
+  DataShape (data s) (room s) (size s).
+
+Definition Inv (bs : list byte) (s : sbuf) : Prop := Inv0 bs s /\ room s < p.
+
+Lemma perm_two (X D A : list page) a t : Permutation (X ++ D) A ->
+  Permutation ((X ++ [t]) ++ D ++ [a]) ((A ++ [a]) ++ [t]).
+Proof.
+  intros H. rewrite <- app_assoc.
+  apply Permutation_trans with (X ++ (D ++ [a]) ++ [t]).
+  { apply Permutation_app_head. apply Permutation_app_comm. }
+  rewrite !app_assoc. apply Permutation_app_tail. apply Permutation_app_tail. exact H.
+Qed.
+
+Lemma inv0_overflow bs s : Inv0 bs s -> room s <= 0 ->
+  Inv0 bs (overflow p s) /\ room (overflow p s) = p.
+Proof.
+  pose proof p_pos as Hp0.
+  intros (He & Hsz & Hnp & Hperm & Hcat & Hst & Hds) Hrm.
+  destruct (struct_step s _ Hst) as (il' & ts' & k & Eov & Hst' & Hk).
+  rewrite Eov. fields. split; [|reflexivity].
+  unfold Inv0. fields.
+  split; [exact He|]. split; [exact Hsz|].
+  split; [destruct Hk as [[-> _]|[-> _]]; lia|].
+  split.
+  { rewrite map_app. cbn [map fst]. destruct Hk as [[-> Hm]|[-> Hm]]; rewrite Hm.
+    - rewrite Z.add_0_r, ap_succ by lia. rewrite app_assoc. apply Permutation_app_tail. exact Hperm.
+    - rewrite !ap_succ by lia. apply perm_two. exact Hperm. }
+  split.
+  { rewrite map_app, concat_app. cbn [map concat snd app]. rewrite app_nil_r. exact Hcat. }
+  split.
+  { rewrite map_app. exact Hst'. }
+  right. destruct Hds as [(Hd & Hr & Hs0) | (d0 & x & lb & Hd & Hfull & Hr & Hlb & Hs0)].
+  - exists [], (nextp s), []. rewrite Hd. cbn [app length].
+    split; [reflexivity|]. split; [constructor|]. split; [lia|]. split; lia.
+  - exists (d0 ++ [(x, lb)]), (nextp s), []. rewrite Hd.
+    split; [reflexivity|]. split.
+    { apply Forall_app. split; [assumption|]. constructor; [cbn [snd]; lia | constructor]. }
+    split; [lia|]. rewrite app_length. cbn [length]. split; lia.
+Qed.
+
+Definition put1 (s : sbuf) (b : byte) : sbuf :=
+  {| size := size s + 1; room := room s - 1; inl := inl s; tabs := tabs s; nextp := nextp s;
+     data := put_last (data s) b; err := err s |}.
+
+Lemma inv0_put bs s b : Inv0 bs s -> 0 < room s -> Inv (bs ++ [b]) (put1 s b).
+Proof.
+  intros (He & Hsz & Hnp & Hperm & Hcat & Hst & Hds) Hrm.
+  destruct Hds as [(Hd & Hr & Hs0) | (d0 & x & lb & Hd & Hfull & Hr & Hlb & Hs0)]; [lia|].
+  unfold Inv, Inv0, put1. fields.
+  rewrite Hd in *. rewrite put_last_snoc.
+  rewrite map_app in *. cbn [map fst snd] in *.
+  split; [|lia].
+  split; [exact He|]. split; [rewrite app_length; cbn [length]; lia|].
+  split; [exact Hnp|]. split; [exact Hperm|].
+  split.
+  { rewrite map_app, concat_app in *. cbn [map concat snd] in *. rewrite app_nil_r in *.
+    rewrite <- Hcat. rewrite <- app_assoc. reflexivity. }
+  split; [exact Hst|].
+  right. exists d0, x, (lb ++ [b]). split; [reflexivity|]. split; [assumption|].
+  rewrite app_length. cbn [length]. split; [lia|]. split; lia.
+Qed.
+
+Lemma inv_init : Inv [] init.
+Proof.
+  pose proof p_pos as Hp0. unfold Inv, Inv0, init. fields. cbn [map app length concat].
+  split; [|lia].
+  split; [reflexivity|]. split; [reflexivity|]. split; [lia|]. split; [constructor|].
+  split; [reflexivity|]. split.
+  - left. cbn [length]. split; [reflexivity|]. split; [reflexivity|]. lia.
+  - left. split; [reflexivity|]. split; reflexivity.
+Qed.
+
+Lemma inv_step bs s b : Inv bs s -> Inv (bs ++ [b]) (put_byte p s b).
+Proof.
+  pose proof p_pos as Hp0. intros (H0 & Hrm).
+  change (put_byte p s b) with (put1 (if room s <=? 0 then overflow p s else s) b).
+  destruct (room s <=? 0) eqn:E.
+  - destruct (inv0_overflow bs s H0) as (H1 & Hr1); [lia|].
+    apply inv0_put; [exact H1 | lia].
+  - apply inv0_put; [exact H0 | lia].
+Qed.
+
+Lemma inv_run bs : Inv bs (run p bs).
+Proof.
+  induction bs as [|b bs IH] using rev_ind.
+  - exact inv_init.
+  - unfold run. rewrite fold_left_app. cbn [fold_left]. apply inv_step. exact IH.
+Qed.
+
+
+(* ---- LogEntry::append_to_iovec on a well-formed state ---- *)
+Definition vform (A : list page) (ts0 : list (page * list page)) (es0 : list page)
+                 (x : page) (r : Z) (tl : list page) : iovec :=
+  map pp A ++ mk ts0 ++ map pp es0 ++ (x, r) :: map (fun t : page => (t, 0)) tl.
+
+Lemma concat_len (ts0 : list (page * list page)) : Forall (fun te => length (snd te) = T p) ts0 ->
+  length (concat (map snd ts0)) = (length ts0 * T p)%nat.
+Proof.
+  induction 1 as [|[t es] ts0 H _ IH]; [reflexivity|].
+  cbn [map concat length snd] in *. rewrite app_length, IH, H. lia.
+Qed.
+
+Lemma iov_struct s D0 x r :
+  Struct (inl s) (tabs s) (D0 ++ [x]) -> 0 < r <= p -> size s = Z.of_nat (length D0) * p + r ->
+  exists A ts0 es0 tl, append_to_iovec p s = Some (vform A ts0 es0 x r tl) /\
+     A ++ concat (map snd ts0) ++ es0 = D0 /\ map fst (tabs s) = map fst ts0 ++ tl.
+Proof.
+  pose proof p_pos as Hp0. pose proof K_Z as HKZ. pose proof K_pos as HK. pose proof T_Z as HTZ.
+  intros [(Hts & Hil & Hlen) | (ts0 & t & es & Hts & Hall & Hes & Hil & HD & HKD)] Hr Hsz.
+  - exists D0, [], [], []. split; [|split].
+    + rewrite app_length in Hlen. cbn [length] in Hlen.
+      assert (Hm : (Z.of_nat (length D0) + 1) * p <= INLINE_PAGE_CAPACITY * p)
+        by (apply Z.mul_le_mono_nonneg_r; lia).
+      unfold append_to_iovec, inline_overflow, full_inline_size, inl_array. rewrite Hts, Hil, Hsz.
+      destruct (_ >? _) eqn:E; [exfalso; lia|].
+      rewrite pages_iov_tail by lia. reflexivity.
+    + cbn [map concat app]. apply app_nil_r.
+    + rewrite Hts. reflexivity.
+  - assert (Hne : es <> []) by (intros ->; cbn in Hes; lia).
+    destruct (exists_last Hne) as (es0 & x' & Ees). subst es.
+    rewrite !app_assoc in HD. apply app_inj_tail in HD. destruct HD as [HD ->].
+    rewrite <- !app_assoc in HD.
+    rewrite !app_length in HKD, Hes. cbn [length] in HKD, Hes.
+    assert (HL : Z.of_nat (length D0) =
+                 (INLINE_PAGE_CAPACITY - 1) + Z.of_nat (length ts0) * ((p - 8) / 8) + Z.of_nat (length es0)).
+    { rewrite <- HD, !app_length, concat_len by assumption.
+      rewrite !Nat2Z.inj_add, Nat2Z.inj_mul, Hil, HTZ. lia. }
+    exists (inl s), ts0, es0, [t]. split; [|split].
+    + assert (Hm : INLINE_PAGE_CAPACITY * p <= Z.of_nat (length D0) * p)
+        by (apply Z.mul_le_mono_nonneg_r; lia).
+      unfold append_to_iovec, inline_overflow, full_inline_size, inl_array. rewrite Hts, Hsz.
+      destruct (_ >? _) eqn:E; [|exfalso; lia].
+      destruct (snoc_case ts0 (t, es0 ++ [x])) as ([t0 e0] & r0 & Ey).
+      rewrite Ey. cbn iota. rewrite <- Ey.
+      unfold inline_part_size, table_part_size, full_inline_size.
+      replace (INLINE_PAGE_CAPACITY * p - p) with (Z.of_nat (length (inl s)) * p)
+        by (rewrite Hil; replace (Z.of_nat (K - 1)) with (INLINE_PAGE_CAPACITY - 1) by lia; ring).
+      rewrite pages_iov_full.
+      replace (Z.of_nat (length D0) * p + r - INLINE_PAGE_CAPACITY * p + p)
+        with (Z.of_nat (length ts0) * ((p - 8) / 8 * p) + Z.of_nat (length es0) * p + r)
+        by (rewrite HL; ring).
+      rewrite table_iov_spec by (assumption || lia). reflexivity.
+    + exact HD.
+    + rewrite Hts, map_app. reflexivity.
+Qed.
+
+(* ---- what a scatter list of that form says ---- *)
+Lemma iov_bytes_app v1 v2 d : iov_bytes (v1 ++ v2) d = iov_bytes v1 d ++ iov_bytes v2 d.
+Proof. apply flat_map_app. Qed.
+
+Lemma iov_bytes_full d L : Forall (fun a => Z.of_nat (length (lookup d a)) = p) L ->
+  iov_bytes (map pp L) d = flat_map (lookup d) L.
+Proof.
+  induction 1 as [|a L Ha _ IH]; [reflexivity|].
+  unfold iov_bytes in *. cbn [map flat_map fst snd]. rewrite IH.
+  rewrite firstn_all2 by lia. reflexivity.
+Qed.
+
+Lemma iov_bytes_mk d ts0 :
+  Forall (fun a => Z.of_nat (length (lookup d a)) = p) (concat (map snd ts0)) ->
+  iov_bytes (mk ts0) d = flat_map (lookup d) (concat (map snd ts0)).
+Proof.
+  induction ts0 as [|[t es] ts0 IH]; intros H; [reflexivity|].
+  cbn [map concat snd] in H. apply Forall_app in H. destruct H as [H1 H2].
+  unfold mk. cbn [flat_map fst snd map concat]. fold (mk ts0).
+  rewrite !iov_bytes_app, flat_map_app, iov_bytes_full, IH by assumption.
+  change (iov_bytes [(t, 0)] d) with (@nil byte). rewrite app_nil_r. reflexivity.
+Qed.
+
+Lemma iov_bytes_zero d tl : iov_bytes (map (fun t : page => (t, 0)) tl) d = [].
+Proof. induction tl as [|t tl IH]; [reflexivity|]. unfold iov_bytes in *. cbn [map flat_map fst snd]. rewrite IH. reflexivity. Qed.
+
+Lemma vform_bytes d A ts0 es0 x r tl :
+  Forall (fun a => Z.of_nat (length (lookup d a)) = p) (A ++ concat (map snd ts0) ++ es0) ->
+  iov_bytes (vform A ts0 es0 x r tl) d =
+  flat_map (lookup d) (A ++ concat (map snd ts0) ++ es0) ++ firstn (Z.to_nat r) (lookup d x).
+Proof.
+  intros H. apply Forall_app in H. destruct H as [HA H]. apply Forall_app in H. destruct H as [HC HE].
+  unfold vform. rewrite !iov_bytes_app, !flat_map_app.
+  rewrite !iov_bytes_full, iov_bytes_mk by assumption.
+  change ((x, r) :: map (fun t : page => (t, 0)) tl) with ([(x, r)] ++ map (fun t : page => (t, 0)) tl).
+  rewrite iov_bytes_app, iov_bytes_zero, app_nil_r.
+  unfold iov_bytes at 1. cbn [flat_map fst snd]. rewrite app_nil_r, <- !app_assoc. reflexivity.
+Qed.
+
+Lemma map_fst_pp L : map fst (map pp L) = L.
+Proof. rewrite map_map. cbn [fst]. apply map_id. Qed.
+
+Lemma map_fst_zero (tl : list page) : map fst (map (fun t : page => (t, 0)) tl) = tl.
+Proof. rewrite map_map. cbn [fst]. apply map_id. Qed.
+
+Lemma mk_fst ts0 : Permutation (map fst (mk ts0)) (map fst ts0 ++ concat (map snd ts0)).
+Proof.
+  induction ts0 as [|[t es] ts0 IH]; [constructor|].
+  unfold mk. cbn [flat_map fst snd map concat]. fold (mk ts0).
+  rewrite !map_app, map_fst_pp. cbn [map fst app]. rewrite <- app_assoc. cbn [app].
+  symmetry. apply Permutation_cons_app.
+  apply Permutation_trans with (es ++ map fst ts0 ++ concat (map snd ts0)).
+  - apply Permutation_app_swap_app.
+  - apply Permutation_app_head. symmetry. exact IH.
+Qed.
+
+Lemma vform_fst A ts0 es0 x r tl :
+  Permutation (map fst (vform A ts0 es0 x r tl))
+              ((map fst ts0 ++ tl) ++ (A ++ concat (map snd ts0) ++ es0) ++ [x]).
+Proof.
+  unfold vform. rewrite !map_app. cbn [map fst]. rewrite !map_fst_pp, map_fst_zero.
+  apply Permutation_trans with (A ++ (map fst ts0 ++ concat (map snd ts0)) ++ es0 ++ x :: tl).
+  { apply Permutation_app_head. apply Permutation_app_tail. apply mk_fst. }
+  rewrite <- !app_assoc.
+  apply Permutation_trans with (map fst ts0 ++ A ++ concat (map snd ts0) ++ es0 ++ x :: tl).
+  { apply Permutation_app_swap_app. }
+  apply Permutation_app_head.
+  replace (A ++ concat (map snd ts0) ++ es0 ++ x :: tl)
+    with ((A ++ concat (map snd ts0) ++ es0 ++ [x]) ++ tl) by (rewrite <- !app_assoc; reflexivity).
+  apply Permutation_app_comm.
+Qed.
+
+Definition len_ok (e : page * Z) : Prop := 0 <= snd e <= p.
+
+Lemma lens_pp L : Forall len_ok (map pp L).
+Proof.
+  pose proof p_pos. apply Forall_forall. intros e Hin. apply in_map_iff in Hin.
+  destruct Hin as (a & <- & _). unfold len_ok. cbn [snd]. lia.
+Qed.
+
+Lemma lens_mk ts0 : Forall len_ok (mk ts0).
+Proof.
+  pose proof p_pos. induction ts0 as [|[t es] ts0 IH]; [constructor|].
+  unfold mk. cbn [flat_map fst snd]. fold (mk ts0).
+  apply Forall_app. split; [|exact IH].
+  apply Forall_app. split; [apply lens_pp|]. constructor; [|constructor].
+  unfold len_ok. cbn [snd]. lia.
+Qed.
+
+Lemma vform_lens A ts0 es0 x r tl : 0 < r <= p -> Forall len_ok (vform A ts0 es0 x r tl).
+Proof.
+  intros Hr. pose proof p_pos. unfold vform.
+  apply Forall_app. split; [apply lens_pp|].
+  apply Forall_app. split; [apply lens_mk|].
+  apply Forall_app. split; [apply lens_pp|].
+  constructor; [unfold len_ok; cbn [snd]; lia|].
+  apply Forall_forall. intros e Hin. apply in_map_iff in Hin.
+  destruct Hin as (a & <- & _). unfold len_ok. cbn [snd]. lia.
+Qed.
+
+Lemma iov_main bs : exists v,
+  append_to_iovec p (run p bs) = Some v /\
+  iov_bytes v (data (run p bs)) = bs /\
+  Permutation (map fst v) (all_pages (run p bs)) /\
+  Forall len_ok v.
+Proof.
+  pose proof p_pos as Hp0. pose proof ipc_pos as HI.
+  destruct (inv_run bs) as ((He & Hsz & Hnp & Hperm & Hcat & Hst & Hds) & Hrm).
+  set (s := run p bs) in *.
+  destruct Hds as [(Hd & Hr & Hs0) | (d0 & x & lb & Hd & Hfull & Hr & Hlb & Hs0)].
+  - rewrite Hd in *. cbn [map app concat] in Hst, Hperm, Hcat.
+    destruct Hst as [(Hts & Hil & _) | (ts0 & t & es & _ & _ & _ & _ & _ & HKD)];
+      [|cbn [length] in HKD; lia].
+    exists []. split; [|split; [|split]].
+    + assert (Hm : 0 < INLINE_PAGE_CAPACITY * p) by (apply Z.mul_pos_pos; lia).
+      unfold append_to_iovec, inline_overflow, full_inline_size, inl_array. rewrite Hts, Hil, Hs0.
+      destruct (_ >? _) eqn:E; [exfalso; lia|].
+      exact (pages_iov_full [] []).
+    + exact Hcat.
+    + rewrite Hts in Hperm. exact Hperm.
+    + constructor.
+  - set (d := data s) in *.
+    assert (Hmf : map fst d = map fst d0 ++ [x]) by (rewrite Hd, map_app; reflexivity).
+    rewrite Hmf in Hst.
+    destruct (iov_struct s (map fst d0) x (p - room s) Hst) as (A & ts0 & es0 & tl & Hv & HA & Htl).
+    { lia. }
+    { rewrite map_length. lia. }
+    assert (Hnd : NoDup (map fst d)).
+    { apply (nodup_app_r (map fst (tabs s))).
+      apply (Permutation_NoDup (Permutation_sym Hperm)). apply ap_nodup. }
+    assert (Hlx : lookup d x = lb).
+    { apply lookup_in; [exact Hnd|]. rewrite Hd. apply in_or_app. right. left. reflexivity. }
+    exists (vform A ts0 es0 x (p - room s) tl). split; [exact Hv|]. split; [|split].
+    + rewrite vform_bytes; rewrite HA.
+      * rewrite Hlx. replace (Z.to_nat (p - room s)) with (length lb) by lia. rewrite firstn_all.
+        rewrite <- Hcat, <- (lookup_all d Hnd), Hmf, flat_map_app.
+        cbn [flat_map]. rewrite app_nil_r, Hlx. reflexivity.
+      * apply Forall_forall. intros a Hin. apply in_map_iff in Hin.
+        destruct Hin as ([a' b] & <- & Hin). cbn [fst].
+        rewrite (lookup_in d Hnd a' b) by (rewrite Hd; apply in_or_app; left; exact Hin).
+        rewrite Forall_forall in Hfull. exact (Hfull _ Hin).
+    + eapply Permutation_trans; [apply vform_fst|].
+      rewrite HA, <- Htl, <- Hmf. exact Hperm.
+    + apply vform_lens. lia.
+Qed.
+
+End WithP.
+
+(* ------------------------------------------------------------------ *)
+(* The lemmas Properties_C20.v refers to                               *)
+Lemma lg_bytes_exact : forall p bs, params_ok p ->
+  exists v, append_to_iovec p (run p bs) = Some v /\ iov_bytes v (data (run p bs)) = bs.
+Proof. intros p bs Hp. destruct (iov_main p Hp bs) as (v & H1 & H2 & _). exists v. split; assumption. Qed.
+
+Lemma lg_pages_once : forall p bs, params_ok p ->
+  exists v, append_to_iovec p (run p bs) = Some v /\ Permutation (map fst v) (all_pages (run p bs)).
+Proof. intros p bs Hp. destruct (iov_main p Hp bs) as (v & H1 & _ & H3 & _). exists v. split; assumption. Qed.
+
+Lemma lg_no_oob : forall p bs, params_ok p -> err (run p bs) = false.
+Proof. intros p bs Hp. destruct (inv_run p Hp bs) as ((He & _) & _). exact He. Qed.
+
+Lemma lg_size : forall p bs, params_ok p -> size (run p bs) = Z.of_nat (length bs).
+Proof. intros p bs Hp. destruct (inv_run p Hp bs) as ((_ & Hsz & _) & _). exact Hsz. Qed.
+
+Lemma lg_iov_lens : forall p bs v, params_ok p ->
+  append_to_iovec p (run p bs) = Some v -> Forall (fun e => 0 <= snd e <= p) v.
+Proof.
+  intros p bs v Hp Hv. destruct (iov_main p Hp bs) as (v' & H1 & _ & _ & H4).
+  rewrite H1 in Hv. injection Hv as <-. exact H4.
+Qed.
+
+Lemma lg_params_4096 : params_ok 4096.
+Proof. split; [lia | reflexivity]. Qed.
